@@ -47,6 +47,15 @@ def consumes(stmt: Optional[ast.AST], tainted: Set[str]) -> bool:
             f = ast.unparse(n.func)
             if f in NEUTRAL_CALLS:
                 continue
+            # only a call ON another object (a store into / delegation to something that outlives the handler) consumes
+            # the node; building a value that is then thrown away does not
+            if not isinstance(n.func, ast.Attribute):
+                continue
+            base = n.func.value
+            while isinstance(base, (ast.Attribute, ast.Subscript)):
+                base = base.value
+            if isinstance(base, ast.Name) and base.id in tainted:
+                continue
             for a in list(n.args) + [k.value for k in n.keywords]:
                 if names_in(a) & tainted:
                     return True
